@@ -18,15 +18,37 @@ EXPLANATION = (
 REG_NAMES = {0: 'A', 1: 'F', 2: 'B', 3: 'C', 4: 'D', 5: 'E', 6: 'H', 7: 'L', 8: 'IXh', 9: 'IXl', 10: 'IYh', 11: 'IYl', 12: 'SP', 14: 'I', 15: 'R',
              16: "A'", 17: "F'", 18: "B'", 19: "C'", 20: "D'", 21: "E'", 22: "H'", 23: "L'", 24: 'PC', 25: 'T', 26: 'IFF', 27: 'IM', 28: 'HALT', 29: 'MEMPTR'}
 
-def table_summaries():
+def table_summaries(repo=None):
+    """Element summaries (depth, interval x mask) of the lookup tables, computed from the constant-folded
+    definitions in simtables.py (so the range proof does not assume the tables are byte-valued)."""
+    from sa.core import tabulate
+    from sa.rules import z80ref
     t = {}
-    pair = (BYTE, BYTE)
-    for n in ('ADC', 'SBC'): t[n] = (3, pair)
-    for n in ('ADC_A_A', 'SBC_A_A', 'ADD', 'AND', 'CP', 'CPL', 'DAA', 'OR', 'SUB', 'XOR', 'RLA', 'RLCA', 'RRA', 'RRCA', 'DEC', 'INC', 'RL', 'RR'): t[n] = (2, pair)
-    for n in ('NEG', 'RLC', 'RRC', 'SLA', 'SLL', 'SRA', 'SRL'): t[n] = (1, pair)
-    t['BIT'] = (3, BYTE)
-    t['CCF'] = (2, BYTE); t['SCF'] = (2, BYTE)
-    t['PARITY'] = (1, V(0, 4, 4)); t['SZ53P'] = (1, V(0, 0xEC, 0xEC))
+    tabs = tabulate.python_tables(repo.mod('simtables'))
+    for name, (dims, fn) in z80ref.TABLES.items():
+        if name not in tabs:
+            continue
+        def leaves(v, d):
+            if d == 0:
+                yield v
+            else:
+                for x in v:
+                    yield from leaves(x, d - 1)
+        elems = list(leaves(tabs[name], len(dims)))
+        if isinstance(elems[0], (tuple, list)):
+            comps = []
+            for i in range(len(elems[0])):
+                vals = [e[i] for e in elems]
+                m = 0
+                for x in vals:
+                    m |= int(x)
+                comps.append(V(min(vals), max(vals), m if min(vals) >= 0 else None))
+            t[name] = (len(dims), tuple(comps))
+        else:
+            m = 0
+            for x in elems:
+                m |= int(x)
+            t[name] = (len(dims), V(int(min(elems)), int(max(elems)), m if min(elems) >= 0 else None))
     return t
 
 SYMS = {'frame_duration': V(1, INF), 't0': NONNEG, 't1': NONNEG, 'int_active': NONNEG}
@@ -102,7 +124,7 @@ def slot_rules(ctx, m):
     ctx.rule('C08.1-rom', 'every memory store is dominated by `address > 0x3FFF` on the same address value', floor=4 * 60)
     ctx.rule('C08.2-ranges', 'register stores stay in range, stored bytes in 0..255, memory indices in 0..65535 (abstract interpretation)', floor=4 * 3000)
     ctx.rule('C08.2-T', 'T-state increment is non-negative on every path', floor=4 * 1100)
-    tables = table_summaries()
+    tables = table_summaries(m.repo)
     seen = set()
     for s in m.slots():
         if m.is_prefix(s):
@@ -124,7 +146,7 @@ def slot_rules(ctx, m):
 def extra_bodies(ctx, m):
     """accept_interrupt (4 bodies), djnz_fast, and the C functions outside the tables."""
     from sa.rules.C06 import interrupt_paths_py
-    tables = table_summaries()
+    tables = table_summaries(m.repo)
     for cls in ('Simulator', 'CMIOSimulator'):
         paths = interrupt_paths_py(m, cls)
         check_paths(ctx, paths, '%s.accept_interrupt' % cls, 'skoolkit/simulator.py:%d' % m.py.factories['Simulator']['accept_interrupt'].lineno, 'py', absdom.AbsEval(tables, SYMS))
@@ -254,5 +276,5 @@ def run(ctx):
     from sa.rules import C08paging
     C08paging.run(ctx, repo, m)
     ctx.assume('entry invariant: 8-bit register slots in 0..255, SP/PC/MEMPTR in 0..65535, IFF/HALT in 0..1, IM in 0..2, memory cells in 0..255, T >= 0')
-    ctx.assume('lookup tables of simtables.py / init_* hold bytes (pairs of bytes); port-read tracers return 0..255; contend() returns a non-negative delay (C19)')
+    ctx.assume('lookup-table element ranges are computed from the folded simtables.py definitions (C tables are `byte` arrays and equal them by C05.T); port-read tracers return 0..255; contend() returns a non-negative delay (C19)')
     return report.finish(ctx, EXPLANATION)
